@@ -101,10 +101,20 @@ Definition exact_point (e h : expr) (p : list (string * Q)) : bool :=
   end.
 
 (* ------------------------------------------------------------------ end-to-end judgement *)
-Record e2e_view := { ev_parsed : bool; ev_check : bool; ev_points : bool; ev_reader : bool }.
+(* ev_path (evidence only, never part of the verdict): which part of the proved checker validated the outputs of the case -
+   "p" every output condition coefficientwise on polynomial normal forms, "e" some by the structural rounding relation
+   with the output itself as the exactly equivalent condition (none needed a hint), "h" some only as the structural
+   rounding of a hint, "i" nothing was printed (every condition omitted as an identity / implied), "-" not validated *)
+Record e2e_view := { ev_parsed : bool; ev_check : bool; ev_points : bool; ev_reader : bool; ev_path : ascii }.
 
 Definition bad_view (reader_ok : bool) : e2e_view :=
-  {| ev_parsed := false; ev_check := false; ev_points := true; ev_reader := reader_ok |}.
+  {| ev_parsed := false; ev_check := false; ev_points := true; ev_reader := reader_ok; ev_path := "-" |}.
+
+Definition path_char (ps : list (option vpath)) : ascii :=
+  if existsb (fun p => match p with None => true | Some _ => false end) ps then "-"
+  else if existsb (fun p => match p with Some VHint => true | _ => false end) ps then "h"
+  else if existsb (fun p => match p with Some VSelf => true | _ => false end) ps then "e"
+  else match ps with [] => "i" | _ => "p" end.
 
 Definition view_e2e (entry : string) (d : nat) (conds assum : list string) (out : obs (list string))
            (reader_ok : bool) (points : list (list (string * Q))) (hints : list string) : e2e_view :=
@@ -113,11 +123,12 @@ Definition view_e2e (entry : string) (d : nat) (conds assum : list string) (out 
     | [Some e], Returned [o] =>
         match rd_expr o with
         | Some oe => let hs := somes (map rd_hexpr hints) in
-                     {| ev_parsed := true; ev_check := check_expr d hs e oe;
+                     let pth := check_expr_path d hs e oe in     (* = check_expr d hs e oe: C13_traced_expr_same *)
+                     {| ev_parsed := true; ev_check := match pth with Some _ => true | None => false end;
                         ev_points := if forallb (point_ok_expr d e oe) points then true
                                      else existsb (fun h => if eround_b (tol_of d) h oe
                                                             then forallb (exact_point e h) points else false) hs;
-                        ev_reader := reader_ok |}
+                        ev_reader := reader_ok; ev_path := path_char [pth] |}
         | None => bad_view reader_ok
         end
     | _, _ => bad_view reader_ok
@@ -136,13 +147,18 @@ Definition view_e2e (entry : string) (d : nat) (conds assum : list string) (out 
         | Some os =>
             let chk := if String.eqb entry "ineq"
                        then match cs, os with
-                            | [c], [o] => match check_under d asm hs c o with Some _ => true | None => false end
-                            | [c], [] => implied (filter is_eq asm) c       (* the inequality was omitted *)
-                            | _, _ => false
+                            | [c], [o] => match check_under d asm hs c o with
+                                          | Some m => (true, [Some (mid_path o m)])
+                                          | None => (false, [None])
+                                          end
+                            | [c], [] => (implied (filter is_eq asm) c, [])       (* the inequality was omitted *)
+                            | _, _ => (false, [None])
                             end
-                       else check_pre d hs cs os in
-            {| ev_parsed := true; ev_check := chk;
-               ev_points := forallb (point_ok d (cs ++ asm) (os ++ asm)) points; ev_reader := reader_ok |}
+                       else let r := check_pre_tr d hs cs os in       (* fst r = check_pre d hs cs os: C13_traced_pre_same *)
+                            (fst r, out_paths d (snd r) os) in
+            {| ev_parsed := true; ev_check := fst chk;
+               ev_points := forallb (point_ok d (cs ++ asm) (os ++ asm)) points; ev_reader := reader_ok;
+               ev_path := if fst chk then path_char (snd chk) else "-" |}
         | None => bad_view reader_ok
         end
     | _, _ => bad_view reader_ok
@@ -207,23 +223,29 @@ Definition trans_ok (text : string) (given : list (string * string)) (res : stri
       end
   end.
 
-Definition judge (c : case) : verdict :=
+Definition judge_path (c : case) : verdict * ascii :=
   match c with
   | CE2E entry d conds assum out reader_ok points hints =>
       let v := view_e2e entry d conds assum out reader_ok points hints in
-      {| v_agree := true;
-         v_ok := ev_parsed v && ev_check v && ev_points v && ev_reader v;
-         v_known := false |}
+      ({| v_agree := true;
+          v_ok := ev_parsed v && ev_check v && ev_points v && ev_reader v;
+          v_known := false |}, ev_path v)
   | CGlue d flag m t out =>
-      {| v_agree := obs_eqb String.eqb (glue_model d flag m t)
-                            (match out with Returned s => Returned (unesc_s s) | Raised => Raised end)
-                    && glue_readback d flag m t;
-         v_ok := true; v_known := false |}
+      ({| v_agree := obs_eqb String.eqb (glue_model d flag m t)
+                             (match out with Returned s => Returned (unesc_s s) | Raised => Raised end)
+                     && glue_readback d flag m t;
+          v_ok := true; v_known := false |}, "g"%char)
   | CTrans text given res after =>
-      {| v_agree := trans_ok text given res after; v_ok := true; v_known := false |}
+      ({| v_agree := trans_ok text given res after; v_ok := true; v_known := false |}, "t"%char)
   end.
 
+Definition judge (c : case) : verdict := fst (judge_path c).
+
 Definition run (cases : list case) : string := summary judge cases.
+
+(* two characters per case: the verdict and the checker path (evidence) *)
+Definition run2 (cases : list case) : string :=
+  t2s (flat_map (fun c => let r := judge_path c in [verdict_char (fst r); snd r]) cases).
 
 (* debugging aid *)
 Inductive explanation :=
